@@ -118,7 +118,16 @@ type ErrSpec struct {
 	Kind    string   `json:"kind"` // nil | status | wrapped | plain | canceled | deadline
 	Code    uint32   `json:"code,omitempty"`
 	Msg     string   `json:"msg,omitempty"`
+	Rep     int      `json:"rep,omitempty"` // the message is Msg repeated this many times (0 = once): long messages stay short in case files
 	Details []Detail `json:"details,omitempty"`
+}
+
+// Message is the status/error message the spec stands for.
+func (e ErrSpec) Message() string {
+	if e.Rep > 1 {
+		return strings.Repeat(e.Msg, e.Rep)
+	}
+	return e.Msg
 }
 
 // Build materialises the error value.
@@ -127,19 +136,19 @@ func (e ErrSpec) Build() error {
 	case "", "nil":
 		return nil
 	case "plain":
-		return errors.New(e.Msg)
+		return errors.New(e.Message())
 	case "canceled":
 		return context.Canceled
 	case "deadline":
 		return context.DeadlineExceeded
 	case "okstatus":
-		return okStatusErr{e.Msg}
+		return okStatusErr{e.Message()}
 	case "eof":
 		return io.EOF // e.g. a handler that returns the io.EOF its own RecvMsg gave it: a failure all the same
 	case "wrapped-eof":
 		return fmt.Errorf("reading request: %w", io.EOF)
 	}
-	st := status.New(codes.Code(e.Code), e.Msg)
+	st := status.New(codes.Code(e.Code), e.Message())
 	if len(e.Details) > 0 && codes.Code(e.Code) != codes.OK {
 		var ms []protoadapt.MessageV1
 		for _, d := range e.Details {
